@@ -46,6 +46,7 @@ def run(tier, seed, rep):
                           dict(definition=d, event_op=ev["op"], tlc=text, files={"def.rs": files.get(d["id"], "") if d else ""}))
         name, res, consts = mc.result()
         rep.add_model(name, res, consts)
+    evs = [e for e in evs if e.get("op") != "panic"]      # PANIC_FILTER: statistics only (panic events were judged by TLC above)
     pe = [e for e in evs if e["op"] == "prop"]
     rep.cov["programs"] = len(defs) - len(failed)
     rep.cov["evaluations"] = 3 * sum(len(e["keys"]) for e in pe)
